@@ -117,68 +117,86 @@ pub fn edge_keys<S: MlDsa>(seed: u64, n: usize, nfull: usize, out: &mut Out) {
                   "cases": edges.len().max(1), "failures": fails}));
 }
 
-/// samplers at scale against the harness's own, rarest cases to TLC
+/// samplers at scale against the harness's own, rarest cases to TLC (work split over threads, one PRNG stream each)
 pub fn samplers<S: MlDsa>(seed: u64, n: usize, nrare: usize, out: &mut Out) {
-    let mut p = Prng::new(seed, 0x0400 + 0x80 + S::SET as u64);
-    let (mut cases, mut fails) = (0u64, 0u64);
-    let mut rare_b: Vec<(usize, Vec<u8>)> = vec![];
-    let mut rare_n: Vec<(usize, Vec<u8>)> = vec![];
-    let mut rare_c: Vec<(usize, Vec<u8>)> = vec![];
-    let mut emit = |out: &mut Out, f: &str, seedb: &[u8], got: &Poly, used: usize, why: &str| {
-        out.ev(json!({"ev": "Sampler", "set": S::SET, "fn": f, "seed": jbytes(seedb), "out": jp(got), "xof_bytes": used, "why": why}));
-    };
-    for i in 0..n {
-        // ExpandS: k + l polynomials from one 64-byte seed
-        let rho: [u8; 64] = p.bytes(64).try_into().unwrap();
-        // use the per-polynomial seeds directly (independent of K, L): rho || IntegerToBytes(r, 2)
-        for rix in 0..(S::L + S::K) as u16 {
-            let mut sd = rho.to_vec(); sd.extend_from_slice(&rix.to_le_bytes());
-            let (mine, used) = refmath::rej_bounded_poly(S::ETA, &sd);
-            // the library's numbering for set (K, L): s1[r] for r < L, s2[r - L] otherwise
-            let lib = lib_bounded::<S>(&rho, rix as usize);
-            cases += 1;
-            if lib != mine { fails += 1; if fails < 6 { emit(out, "rej_bounded", &sd, &lib, used, "library differs from the harness's sampler"); } }
-            rare_b.push((used, sd));
-        }
-        if rare_b.len() > 4096 { rare_b.sort_by(|a, b| b.0.cmp(&a.0)); rare_b.truncate(nrare.max(8)); }
-        // RejNTTPoly through ExpandA: k*l polynomials per rho (fewer seeds: it is 10x the work)
-        if i % 8 == 0 {
-            let rho32 = p.arr32();
-            let a = S::expand_a(&rho32);
-            for r in 0..S::K { for s in 0..S::L {
-                let mut sd = rho32.to_vec(); sd.push(s as u8); sd.push(r as u8);
-                let (mine, used) = refmath::rej_ntt_poly(&sd);
-                cases += 1;
-                if a[r][s] != mine { fails += 1; if fails < 6 { emit(out, "rej_ntt", &sd, &a[r][s], used, "library differs from the harness's sampler"); } }
-                rare_n.push((used, sd));
-            } }
-            if rare_n.len() > 4096 { rare_n.sort_by(|a, b| b.0.cmp(&a.0)); rare_n.truncate(nrare.max(8)); }
-        }
-        // SampleInBall and ExpandMask
-        let ct = p.bytes(S::LAMBDA / 4);
-        let (mine, used) = refmath::sample_in_ball(S::TAU as usize, &ct);
-        let lib = vh::sample_in_ball::<false>(S::TAU, &ct);
-        cases += 1;
-        if lib != mine { fails += 1; if fails < 6 { emit(out, "sample_in_ball", &ct, &lib, used, "library differs from the harness's sampler"); } }
-        rare_c.push((used, ct));
-        if rare_c.len() > 4096 { rare_c.sort_by(|a, b| b.0.cmp(&a.0)); rare_c.truncate(nrare.max(8)); }
-        if i % 4 == 0 {
-            let mu = [0u16, 1, 255, 256, 65535 - S::L as u16, p.below(65536 - 8) as u16][(i / 4) % 6];
-            let lib = lib_mask::<S>(&rho, mu);
-            for (r, lp) in lib.iter().enumerate() {
-                let mine = refmath::expand_mask_poly(S::GAMMA1, &rho, mu + r as u16);
-                cases += 1;
-                if *lp != mine { fails += 1; if fails < 6 { let mut sd = rho.to_vec(); sd.extend_from_slice(&(mu + r as u16).to_le_bytes()); emit(out, "expand_mask", &sd, lp, 0, "library differs from the harness's sampler"); } }
+    type Rare = Vec<(usize, Vec<u8>)>;
+    struct Part { cases: u64, fails: u64, evs: Vec<Value>, rb: Rare, rn: Rare, rc: Rare }
+    let nt = std::thread::available_parallelism().map(|x| x.get()).unwrap_or(8).min(12).min(n.max(1));
+    let parts: std::sync::Mutex<Vec<Part>> = std::sync::Mutex::new(vec![]);
+    std::thread::scope(|sc| { for t in 0..nt { let parts = &parts; sc.spawn(move || {
+        let mut p = Prng::new(seed, 0x0400 + 0x80 + S::SET as u64 + 1000 * t as u64);
+        let mut q = Part { cases: 0, fails: 0, evs: vec![], rb: vec![], rn: vec![], rc: vec![] };
+        let ev = |f: &str, seedb: &[u8], got: &Poly, used: usize, why: &str| json!({"ev": "Sampler", "set": S::SET, "fn": f, "seed": jbytes(seedb), "out": jp(got), "xof_bytes": used, "why": why});
+        let trim = |v: &mut Rare, k: usize| { if v.len() > 2048 { v.sort_by(|a, b| b.0.cmp(&a.0)); v.truncate(k.max(8)); } };
+        let mut i = t;
+        while i < n {
+            let rho: [u8; 64] = p.bytes(64).try_into().unwrap();
+            // ExpandS: the per-polynomial seeds rho || IntegerToBytes(r, 2); the library numbers s1 0..l-1 and s2 l..l+k-1
+            let lib_all = guarded(|| (0..(S::L + S::K)).map(|r| lib_bounded::<S>(&rho, r)).collect::<Vec<Poly>>());
+            match lib_all {
+                Ok(polys) => for rix in 0..(S::L + S::K) as u16 {
+                    let mut sd = rho.to_vec(); sd.extend_from_slice(&rix.to_le_bytes());
+                    let (mine, used) = refmath::rej_bounded_poly(S::ETA, &sd);
+                    q.cases += 1;
+                    if polys[rix as usize] != mine { q.fails += 1; if q.fails < 4 { q.evs.push(ev("rej_bounded", &sd, &polys[rix as usize], used, "library differs from the harness's sampler")); } }
+                    q.rb.push((used, sd));
+                },
+                Err((loc, msg)) => { q.fails += 1; if q.fails < 4 { q.evs.push(json!({"ev": "Panic", "call": "expand_s", "loc": loc, "msg": msg})); } }
             }
-            if i % 8000 == 0 { let mut sd = rho.to_vec(); sd.extend_from_slice(&mu.to_le_bytes()); emit(out, "expand_mask", &sd, &lib[0], 0, "sample"); }
+            trim(&mut q.rb, nrare);
+            if i % 8 == 0 {
+                let rho32 = p.arr32();
+                match guarded(|| S::expand_a(&rho32)) {
+                    Ok(a) => for r in 0..S::K { for s in 0..S::L {
+                        let mut sd = rho32.to_vec(); sd.push(s as u8); sd.push(r as u8);
+                        let (mine, used) = refmath::rej_ntt_poly(&sd);
+                        q.cases += 1;
+                        if a[r][s] != mine { q.fails += 1; if q.fails < 4 { q.evs.push(ev("rej_ntt", &sd, &a[r][s], used, "library differs from the harness's sampler")); } }
+                        q.rn.push((used, sd));
+                    } },
+                    Err((loc, msg)) => { q.fails += 1; if q.fails < 4 { q.evs.push(json!({"ev": "Panic", "call": "expand_a", "loc": loc, "msg": msg})); } }
+                }
+                trim(&mut q.rn, nrare);
+            }
+            let ct = p.bytes(S::LAMBDA / 4);
+            let (mine, used) = refmath::sample_in_ball(S::TAU as usize, &ct);
+            match guarded(|| vh::sample_in_ball::<false>(S::TAU, &ct)) {
+                Ok(lib) => { q.cases += 1; if lib != mine { q.fails += 1; if q.fails < 4 { q.evs.push(ev("sample_in_ball", &ct, &lib, used, "library differs from the harness's sampler")); } } }
+                Err((loc, msg)) => { q.fails += 1; if q.fails < 4 { q.evs.push(json!({"ev": "Panic", "call": "sample_in_ball", "loc": loc, "msg": msg})); } }
+            }
+            q.rc.push((used, ct));
+            trim(&mut q.rc, nrare);
+            if i % 4 == 0 {
+                let mu = [0u16, 1, 255, 256, 257, 511, 512, 65535 - S::L as u16, p.below(65536 - 8) as u16][(i / 4) % 9];
+                match guarded(|| lib_mask::<S>(&rho, mu)) {
+                    Ok(lib) => {
+                        for (r, lp) in lib.iter().enumerate() {
+                            let mine = refmath::expand_mask_poly(S::GAMMA1, &rho, mu + r as u16);
+                            q.cases += 1;
+                            if *lp != mine { q.fails += 1; if q.fails < 4 { let mut sd = rho.to_vec(); sd.extend_from_slice(&(mu + r as u16).to_le_bytes()); q.evs.push(ev("expand_mask", &sd, lp, 0, "library differs from the harness's sampler")); } }
+                        }
+                        if i % 8000 == 0 { let mut sd = rho.to_vec(); sd.extend_from_slice(&mu.to_le_bytes()); q.evs.push(ev("expand_mask", &sd, &lib[0], 0, "sample")); }
+                    }
+                    Err((loc, msg)) => { q.fails += 1; if q.fails < 4 { q.evs.push(json!({"ev": "Panic", "call": "expand_mask", "loc": loc, "msg": msg})); } }
+                }
+            }
+            i += nt;
         }
-    }
+        parts.lock().unwrap().push(q);
+    }); } });
+    let parts = parts.into_inner().unwrap();
+    let (mut cases, mut fails) = (0u64, 0u64);
+    let (mut rb, mut rn, mut rc): (Rare, Rare, Rare) = (vec![], vec![], vec![]);
+    for q in parts { cases += q.cases; fails += q.fails; for e in q.evs.into_iter().take(6) { out.ev(e); } rb.extend(q.rb); rn.extend(q.rn); rc.extend(q.rc); }
     // the rarest cases (most XOF output consumed) of each rejection sampler, judged by TLC
-    for (list, f) in [(&mut rare_b, "rej_bounded"), (&mut rare_n, "rej_ntt"), (&mut rare_c, "sample_in_ball")] {
-        list.sort_by(|a, b| b.0.cmp(&a.0));
+    for (list, f) in [(&mut rb, "rej_bounded"), (&mut rn, "rej_ntt"), (&mut rc, "sample_in_ball")] {
+        list.sort_by(|a, b| b.0.cmp(&a.0).then(a.1.cmp(&b.1)));
         for (used, sd) in list.iter().take(nrare) {
-            let lib = match f { "rej_bounded" => lib_bounded_seed::<S>(sd), "rej_ntt" => { let rho: [u8; 32] = sd[..32].try_into().unwrap(); S::expand_a(&rho)[sd[33] as usize][sd[32] as usize] }, _ => vh::sample_in_ball::<false>(S::TAU, sd) };
-            emit(out, f, sd, &lib, *used, "rarest of the sweep (most XOF bytes consumed)");
+            let lib = guarded(|| match f { "rej_bounded" => lib_bounded_seed::<S>(sd), "rej_ntt" => { let rho: [u8; 32] = sd[..32].try_into().unwrap(); S::expand_a(&rho)[sd[33] as usize][sd[32] as usize] }, _ => vh::sample_in_ball::<false>(S::TAU, sd) });
+            match lib {
+                Ok(l) => out.ev(json!({"ev": "Sampler", "set": S::SET, "fn": f, "seed": jbytes(sd), "out": jp(&l), "xof_bytes": used, "why": "rarest of the sweep (most XOF bytes consumed)"})),
+                Err((loc, msg)) => out.ev(json!({"ev": "Panic", "call": f, "loc": loc, "msg": msg})),
+            }
         }
     }
     out.ev(json!({"ev": "SweepF", "set": S::SET, "what": "ExpandS / ExpandA / SampleInBall / ExpandMask of the library equal the harness's samplers", "cases": cases, "failures": fails}));
